@@ -283,7 +283,7 @@ class C11(Check):
                                   cwd=d, env=env, stdout=fo, stderr=subprocess.STDOUT, stdin=subprocess.DEVNULL,
                                   start_new_session=True)
             try:
-                pr.wait(timeout=limit + 30)
+                pr.wait(timeout=limit + 45)
             except subprocess.TimeoutExpired:
                 pass
             try:
@@ -306,11 +306,19 @@ class C11(Check):
 
     def run_mpi_case(self, idx, case):
         w = [int(x) for x in case.split()[1:5]]
-        ranks = self.run_mpi_once(w, self.mpi_limit, "c%d" % idx)
-        ok = len(ranks) == w[0] and all(v[0] == "OK" for v in ranks.values())
-        if not ok:   # not believed before a second run with a larger limit (machine load)
-            ranks = self.run_mpi_once(w, 2 * self.mpi_limit, "c%d" % idx)
+        ok, ranks = False, {}
+        # a run is believed when it terminated everywhere, or when it was seen to hang twice (second time with a larger
+        # limit); a run in which some rank printed nothing (mpiexec start-up stalled under machine load) is repeated
+        hangs = 0
+        for attempt in range(4):
+            ranks = self.run_mpi_once(w, self.mpi_limit * (1 + attempt), "c%d" % idx)
             ok = len(ranks) == w[0] and all(v[0] == "OK" for v in ranks.values())
+            if ok:
+                break
+            if len(ranks) == w[0]:
+                hangs += 1
+                if hangs >= 2:
+                    break
         tot = lambda k: sum(v[1].get(k, 0) for v in ranks.values())  # noqa: E731
         return "mpi term=%d ranks=%d sent=%d started=%d recv=%d cons=%d errors=%d" % (
             1 if ok else 0, len(ranks), tot("starts"), tot("rstarts"), tot("ends"), tot("cons"), tot("errors"))
